@@ -50,11 +50,7 @@ def NoCrash (s : SchemaD) (fx : Fixes) (d : Doc) : Prop := (alone s fx .overlapp
 def OverlapFullStatement : Prop :=
   ∀ (s : SchemaD) (fx : Fixes) (d : Doc), fx.v7 = true → NoCrash s fx d → Spec.ParentsAgree s d →
     (Silent s fx .overlappingFieldsCanBeMerged d ↔ Spec.overlappingFieldsCanBeMerged s d)
-
-/-- the half of `OverlapFullStatement` that is proved needs none of its side conditions -/
-theorem overlap_full_statement_mpr_partial (s : SchemaD) (fx : Fixes) (d : Doc) (h7 : fx.v7 = true) :
-    Spec.overlappingFieldsCanBeMerged s d → Silent s fx .overlappingFieldsCanBeMerged d :=
-  rule_overlapping_fields_can_be_merged_no_false_alarm_partial s fx h7 d
+-- the `←` half is `rule_overlapping_fields_can_be_merged_no_false_alarm_partial` and needs none of the side conditions
 
 /-! ### non-vacuity -/
 
